@@ -2,6 +2,7 @@ package tlsp
 
 import (
 	"context"
+	"crypto/sha256"
 	"fmt"
 	"strings"
 	"sync"
@@ -46,6 +47,14 @@ func genC05(t *rapid.T) c05Case {
 		addr := rapid.IntRange(0, 1).Draw(t, "addr")
 		if rapid.IntRange(0, 3).Draw(t, "rebind") != 0 {
 			c.Ops = append(c.Ops, c05Op{Op: "bind", Addr: addr, Who: rapid.SampledFrom([]int{1, 2, 2, 2, 0}).Draw(t, "who")})
+		}
+		switch rapid.IntRange(0, 5).Draw(t, "pre") {
+		case 0:
+			// D first connects to whoever serves the address under that peer's own identity (a legitimate link to Y)
+			c.Ops = append(c.Ops, c05Op{Op: "dialy", Addr: addr})
+		case 1:
+			// a dial for an identity that is given as a hashed (key-less) peer id: nobody can answer as it
+			c.Ops = append(c.Ops, c05Op{Op: "dialhash", Addr: addr})
 		}
 		c.Ops = append(c.Ops, c05Op{Op: "dial", Addr: addr})
 		if rapid.IntRange(0, 3).Draw(t, "kill") == 0 {
@@ -101,7 +110,18 @@ func fastDialBackoff() *backoff.Backoff {
 }
 
 // dialer D has key 0; the intended peer X key 1; the impostor Y key 2.
-func checkC05(c c05Case) (o vstat.Outcome) {
+func checkC05(c c05Case) (o vstat.Outcome) { return checkDial(c, false) }
+
+// checkC03Dial runs the same histories and asserts C03's refusal clause only: a dial that required a specific
+// peer and was answered by another one leaves no link (under any name) with the peer that answered.
+func checkC03Dial(c c05Case) (o vstat.Outcome) { return checkDial(c, true) }
+
+func checkDial(c c05Case, refusalOnly bool) (o vstat.Outcome) {
+	defer func() {
+		if o.V != nil && (o.V.Kind == "handshake-not-refused") != refusalOnly {
+			o.V = nil
+		}
+	}()
 	ctx, cancel := context.WithCancel(context.Background())
 	defer cancel()
 	nw := newMemNet()
@@ -160,11 +180,25 @@ func checkC05(c c05Case) (o vstat.Outcome) {
 	}()
 	var hist []string
 	impostorAnswered := false
+	keylessDial := false
 	X := gen.PeerID(1)
+	Y := gen.PeerID(2)
+	// XH: a well-formed peer id that names a key (held by nobody here) by its SHA2-256 digest instead of embedding it
+	xpub, _ := crypto.MarshalPublicKey(gen.Key(7).GetPublic())
+	xsum := sha256.Sum256(xpub)
+	XH := peer.ID(append([]byte{0x12, 0x20}, xsum[:]...))
+	linkToY := false
+	everDialedY := false
 	for _, op := range c.Ops {
 		switch op.Op {
 		case "bind":
 			if s := servers[op.Addr]; s != nil {
+				if s.who == 2 {
+					// the address changes hands: D's links to the previous holder are closed first
+					for _, l := range ctrl.GetPeerLinks(Y) {
+						_ = l.Close()
+					}
+				}
 				s.cancel()
 				nw.unbind(addrs[op.Addr])
 				delete(servers, op.Addr)
@@ -206,6 +240,49 @@ func checkC05(c c05Case) (o vstat.Outcome) {
 					return
 				}
 			}
+		case "dialy":
+			who := 0
+			if s := servers[op.Addr]; s != nil {
+				who = s.who
+			}
+			ytimeout := 700 * time.Millisecond
+			if who == 2 {
+				ytimeout = 6 * time.Second
+			}
+			dctx, dcancel := context.WithTimeout(ctx, ytimeout)
+			lnk, derr := ctrl.DialPeerAddr(dctx, Y, &dialer.DialerOpts{Address: string(addrs[op.Addr]), Backoff: fastDialBackoff()})
+			dcancel()
+			everDialedY = true
+			hist = append(hist, fmt.Sprintf("dial(Y@%s served by %d)", addrs[op.Addr], who))
+			if derr == nil && lnk != nil {
+				if lnk.GetRemotePeer() != Y {
+					o.V = vstat.Viol("dial-credits-wrong-peer", "after %s: DialPeerAddr(Y) returned a link to %s", strings.Join(hist, " "), lnk.GetRemotePeer())
+					return
+				}
+				linkToY = true
+			}
+		case "dialhash":
+			who := 0
+			if s := servers[op.Addr]; s != nil {
+				who = s.who
+			}
+			dctx, dcancel := context.WithTimeout(ctx, 700*time.Millisecond)
+			lnk, derr := ctrl.DialPeerAddr(dctx, XH, &dialer.DialerOpts{Address: string(addrs[op.Addr]), Backoff: fastDialBackoff()})
+			dcancel()
+			hist = append(hist, fmt.Sprintf("dial(hashed-id@%s served by %d)", addrs[op.Addr], who))
+			if who != 0 {
+				keylessDial = true
+			}
+			if derr == nil && lnk != nil && lnk.GetRemotePeer() != XH {
+				o.V = vstat.Viol("dial-credits-wrong-peer", "after %s: a dial for the key-less peer id %s reported success with a link whose authenticated remote peer is %s", strings.Join(hist, " "), XH.String(), lnk.GetRemotePeer())
+				return
+			}
+			for _, l := range ctrl.GetPeerLinks(XH) {
+				if l.GetRemotePeer() != XH {
+					o.V = vstat.Viol("link-table-wrong-peer", "after %s: GetPeerLinks(key-less id) contains a link to %s", strings.Join(hist, " "), l.GetRemotePeer())
+					return
+				}
+			}
 		case "kill":
 			for _, p := range []peer.ID{X, gen.PeerID(2)} {
 				for _, l := range ctrl.GetPeerLinks(p) {
@@ -214,6 +291,15 @@ func checkC05(c c05Case) (o vstat.Outcome) {
 			}
 			time.Sleep(30 * time.Millisecond)
 			hist = append(hist, "kill")
+		}
+		// refusal: D only ever required specific peers; while it has not dialed Y under Y's own name, no link
+		// with Y may exist on D (an answered-by-Y dial for X or for the key-less id must have been refused)
+		if !everDialedY && (op.Op == "dial" || op.Op == "dialhash") {
+			time.Sleep(20 * time.Millisecond)
+			if ls := ctrl.GetPeerLinks(Y); len(ls) != 0 {
+				o.V = vstat.Viol("handshake-not-refused", "after %s: D required a specific remote peer, peer Y answered instead, and D now holds %d link(s) with Y although it never dialed Y", strings.Join(hist, " "), len(ls))
+				return
+			}
 		}
 		// no false credit: everything yielded for "a link to X" is a link to X
 		wmu.Lock()
@@ -232,9 +318,15 @@ func checkC05(c c05Case) (o vstat.Outcome) {
 			}
 		}
 	}
-	o.NonTrivial = impostorAnswered
+	o.NonTrivial = impostorAnswered || keylessDial
 	if impostorAnswered {
 		o.Classes = append(o.Classes, "impostor-answered")
+	}
+	if keylessDial {
+		o.Classes = append(o.Classes, "dial-for-keyless-id-answered")
+	}
+	if linkToY {
+		o.Classes = append(o.Classes, "legitimate-link-to-other-peer-at-address")
 	}
 	// recovery: X becomes reachable at addr-a (the impostor's link, if any, is gone): a request for X is satisfied
 	if s := servers[0]; s != nil {
@@ -273,5 +365,16 @@ var specC05 = vstat.Spec[c05Case]{
 	Check:       checkC05,
 }
 
-func TestC05(t *testing.T)       { vstat.Check(t, specC05) }
-func TestC05Replay(t *testing.T) { vstat.Replay(t, specC05) }
+var specC03Dial = vstat.Spec[c05Case]{
+	Property: "C03",
+	Rule: "dial layer: the C05 rig (real transport controller D over the in-memory packet switch, addresses served by X, by Y or by nobody) with dials that require a specific peer - X, or a key-less (hashed) peer id nobody holds; " +
+		"oracle: as long as D never dialed Y under Y's own identity, D holds no link with Y after a dial that Y answered (the handshake was refused, not merely relabelled); non-trivial = Y answered a dial that required another peer",
+	Assumptions: []string{"a refused session is torn down within 20 ms of the dial returning"},
+	Gen:         genC05,
+	Check:       checkC03Dial,
+}
+
+func TestC03Dial(t *testing.T)       { vstat.Check(t, specC03Dial) }
+func TestC03DialReplay(t *testing.T) { vstat.Replay(t, specC03Dial) }
+func TestC05(t *testing.T)           { vstat.Check(t, specC05) }
+func TestC05Replay(t *testing.T)     { vstat.Replay(t, specC05) }
